@@ -223,6 +223,18 @@ for (n, tier) in ((2, "quick"), (3, "quick"), (4, "thorough"), (5, "thorough")):
         object_bits=10, tier=tier, functions=DBITER_FUNCS,
         desc="db_iter.c full forward scan (first,next*) and full backward scan (last,prev*) both yield exactly the visible entries of the fold, each once, in order / reverse order; forward and backward agree",
         bounds="%d internal entries (1-byte symbolic user keys, symbolic seq/type), symbolic snapshot S" % n)
+# "trim an oversized saved_value" branch of find_prev_user_entry (ldb_buffer_reinit when
+# saved_value.alloc > value.size + 1 MiB): reached by state injection, not by megabyte values
+for n in (2, 3):
+    d = {"VP_MODE": 0, "VP_N": n, "VP_TRIM": 1, "VP_K": 3,
+         "VP_OS0": (1 << 1) | (1 << 2),   # last | seek(symbolic)
+         "VP_OS1": 1 << 4,                # prev
+         "VP_OS2": R_SET}                 # prev | next (turn-around)
+    add("e.dbiter-trim-N%d" % n, "C07/dbiter.c", real=DBITER_REAL, include_real=["db_iter.c"],
+        defs=d, kit=KIT_SLAB, unwind=11, unwindset=dbiter_loops(n), object_bits=10, tier="quick", flags=NOSTD,
+        functions=DBITER_FUNCS + ["ldb_buffer_reinit", "clear_saved_value"],
+        desc="db_iter.c with an oversized saved_value buffer (saved_value.alloc injected = 2 MiB after positioning with last/seek): prev() then prev()/next() still yield the entry the fold dictates with its VALUE bytes and length (trim happens before the copies), status == child status",
+        bounds="%d internal entries (1-byte symbolic user keys, symbolic 56-bit seq, symbolic type), symbolic snapshot S; steps (last|seek(sym)) - inject alloc=2MiB - prev - (prev|next)" % n)
 
 # ------------------------------------------------------------------ c. merger.c
 MERGER_FUNCS = ["ldb_mergeiter_first", "ldb_mergeiter_last", "ldb_mergeiter_seek", "ldb_mergeiter_next",
